@@ -6588,9 +6588,16 @@ fn eval_expr(
         },
         Expression_::Return(expr) => {
             if expr_state.done_subexpressions() {
-                // No more expressions to evaluate in this function, we're returning.
+                // No more expressions to evaluate in this function,
+                // we're returning. Leave the blocks we're inside, so
+                // a `return` in the toplevel stack frame doesn't leak
+                // their bindings.
                 let stack_frame = env.current_frame_mut();
-                stack_frame.exprs_to_eval.clear();
+                while let Some((pending_state, pending_expr)) = stack_frame.exprs_to_eval.pop() {
+                    if pending_step_owns_block(pending_state, &pending_expr) {
+                        stack_frame.bindings.pop_block();
+                    }
+                }
             } else {
                 env.push_expr_to_eval(
                     ExpressionState::EvaluatedSubexpressions,
@@ -7317,21 +7324,28 @@ fn eval_block(env: &mut Env, expr_value_is_used: bool, block: &Block) {
     }
 }
 
-/// When `break` or `continue` discards the pending step
-/// (`expr_state`, `expr`), does that step own a bindings block that
-/// it would have popped?
+/// Does the pending step (`expr_state`, `expr`) own a bindings block
+/// that it pops when it runs? If `break`, `continue` or `return`
+/// discards such a step, it must pop the block instead.
 ///
 /// `if`, `match`, `try` and `for` pop a block in the
-/// `EvaluatedSubexpressions` step.
-fn discarded_step_owns_block(expr_state: ExpressionState, expr: &Expression) -> bool {
-    matches!(expr_state, ExpressionState::EvaluatedSubexpressions)
-        && matches!(
+/// `EvaluatedSubexpressions` step, and loops pop the block of their
+/// body in the `DoneRunBlock` step.
+fn pending_step_owns_block(expr_state: ExpressionState, expr: &Expression) -> bool {
+    match expr_state {
+        ExpressionState::EvaluatedSubexpressions => matches!(
             expr.expr_,
             Expression_::If(_, _, _)
                 | Expression_::Match(_, _)
                 | Expression_::Try(_, _, _)
                 | Expression_::ForIn(_, _, _)
-        )
+        ),
+        ExpressionState::PartiallyEvaluated(BlockState::DoneRunBlock) => matches!(
+            expr.expr_,
+            Expression_::While(_, _) | Expression_::ForIn(_, _, _)
+        ),
+        _ => false,
+    }
 }
 
 /// Is this pending step a loop that has started running? A loop
@@ -7353,10 +7367,7 @@ fn eval_break(env: &mut Env, expr_value_is_used: bool) {
             Expression_::While(_, _) if is_running_loop(expr_state, &expr) => {
                 // If we're leaving the loop body, pop its bindings
                 // block, as the `DoneRunBlock` step would have done.
-                if matches!(
-                    expr_state,
-                    ExpressionState::PartiallyEvaluated(BlockState::DoneRunBlock)
-                ) {
+                if pending_step_owns_block(expr_state, &expr) {
                     env.current_frame_mut().bindings.pop_block();
                 }
 
@@ -7400,7 +7411,7 @@ fn eval_break(env: &mut Env, expr_value_is_used: bool) {
                 // We're exiting a block that wasn't part of a loop
                 // (i.e. a match case or an if/else block), so we
                 // should pop the bindings block here too.
-                if discarded_step_owns_block(expr_state, &expr) {
+                if pending_step_owns_block(expr_state, &expr) {
                     env.current_frame_mut().bindings.pop_block();
                 }
 
@@ -7430,7 +7441,7 @@ fn eval_continue(env: &mut Env) {
 
         // We're exiting a match case or an if/else block, so pop its
         // bindings block.
-        if discarded_step_owns_block(expr_state, &expr) {
+        if pending_step_owns_block(expr_state, &expr) {
             env.current_frame_mut().bindings.pop_block();
         }
     }
